@@ -804,7 +804,12 @@ func (d *badgerNodeDB) Prune(version uint64) error {
 		if innerErr != nil {
 			return innerErr
 		}
-		if err != nil {
+		switch {
+		case err == nil:
+		case errors.Is(err, api.ErrRootNotFound):
+			// An earlier Prune of this version removed the root but was interrupted before
+			// the metadata update below, so the version must still be pruned.
+		default:
 			return err
 		}
 
